@@ -5,8 +5,8 @@ From CSL Require Import Base.Prelude Cbor.Head Cbor.Item ScriptData.LangViews Sc
 Local Open Scope N_scope.
 
 (* stand-alone helper: the hash hash_script_data returns and the witness set emitted for the same redeemers/datums *)
-Definition helper_obs (r : redeemers) (cm : costmdls) (d : option plutus_list) : bytes * bytes :=
-  (hash_script_data blake2b256 r cm d, ws_bytes (helper_witness_set r d)).
+Definition helper_obs (vk bo : option bytes) (r : redeemers) (cm : costmdls) (d : option plutus_list) : bytes * bytes :=
+  (hash_script_data blake2b256 r cm d, ws_bytes (helper_witness_set_with vk bo r d)).
 
 Record built := mk_built {
   o_script_data_hash : option bytes;
